@@ -97,7 +97,8 @@ class RepositoryConfig:
             not c.endswith("/") for c in codenames
         ):
             raise RepositoryConfigException(
-                f"Mixing flat and non-flat configuration for repository {url} is not"
+                "Mixing flat and non-flat configuration for repository"
+                f" {URL.from_string(url)} is not"
                 f" supported. Wrong codenames: {codenames}"
             )
 
@@ -433,7 +434,8 @@ class Config:
             for url in options[option]:
                 if url not in self._repositories:
                     self._log.warning(
-                        f"`{option}` was specified for missing repository URL: {url}"
+                        f"`{option}` was specified for missing repository URL:"
+                        f" {URL.from_string(url)}"
                     )
                     continue
 
@@ -464,12 +466,15 @@ class Config:
         for url, paths in mirror_paths.items():
             if url not in self._repositories:
                 self._log.warning(
-                    f"mirror_path was specified for missing repository URL: {url}"
+                    "mirror_path was specified for missing repository URL:"
+                    f" {URL.from_string(url)}"
                 )
                 continue
 
             if not paths:
-                raise RuntimeError(f"Missing mirror path for URL {url}")
+                raise RuntimeError(
+                    f"Missing mirror path for URL {URL.from_string(url)}"
+                )
 
             self._repositories[url].mirror_path = Path(paths[0])
 
@@ -477,7 +482,8 @@ class Config:
         for url, paths in ignore_errors.items():
             if url not in self._repositories:
                 self._log.warning(
-                    f"ignore_errors was specified for missing repository URL: {url}"
+                    "ignore_errors was specified for missing repository URL:"
+                    f" {URL.from_string(url)}"
                 )
                 continue
 
@@ -501,7 +507,8 @@ class Config:
             for url in attr:
                 if url not in self._repositories:
                     self._log.warning(
-                        f"{filter_name} was specified for missing repository URL: {url}"
+                        f"{filter_name} was specified for missing repository URL:"
+                        f" {URL.from_string(url)}"
                     )
                     continue
 
